@@ -128,3 +128,16 @@ def branch_edges(fn, cond_pred, branch):
         if len(succ) > branch and succ[branch] >= 0:
             res.add((b, succ[branch]))
     return res
+
+
+def switch_default_edges(fn):
+    """Edges from a switch block to a successor that carries no case/default
+    label: the implicit "no case matched" fall-out of a switch without default."""
+    res = set()
+    for b, blk in fn.blocks.items():
+        t = blk.get("term")
+        if t and t["k"] == "switch" and not t.get("default"):
+            for s in blk["succ"]:
+                if s >= 0 and fn.blocks[s].get("case") is None:
+                    res.add((b, s))
+    return res
